@@ -5,6 +5,8 @@ import (
 	"errors"
 	"fmt"
 	"hash/fnv"
+	"sort"
+	"strings"
 	"sync"
 	"sync/atomic"
 	"time"
@@ -118,6 +120,7 @@ type srcSession struct {
 	emitterDone chan struct{}
 	stopCh      chan struct{}
 	opened      bool
+	ackDone     chan struct{}
 }
 
 func (p *Plugins) newSrcSession(st *SrcState) *srcSession {
@@ -217,6 +220,9 @@ func (s *srcSession) Run(ctx context.Context, stream pconnector.SourceRunStream)
 	lg := st.p.Log
 	// ack receiver
 	ackDone := make(chan struct{})
+	s.mu.Lock()
+	s.ackDone = ackDone
+	s.mu.Unlock()
 	go func() {
 		defer close(ackDone)
 		for {
@@ -369,6 +375,18 @@ func (s *srcSession) Teardown(ctx context.Context, _ pconnector.SourceTeardownRe
 	s.st.p.enter()
 	defer s.st.p.leave()
 	err := s.callErr("Teardown")
+	// The host cancels the stream before it calls Teardown, so the ack receiver
+	// is about to exit; wait for it so that every ack the plugin RECEIVED before
+	// the teardown is also LOGGED before it (recording discipline, DESIGN 2.2).
+	s.mu.Lock()
+	ad := s.ackDone
+	s.mu.Unlock()
+	if ad != nil {
+		select {
+		case <-ad:
+		case <-time.After(2 * time.Second):
+		}
+	}
 	e := Ev{Kind: KSrcTeardown, Comp: s.st.ID, Role: "src", Sess: s.sess}
 	if !s.opened {
 		e.Note = "never-opened"
@@ -524,6 +542,18 @@ func (s *dstSession) Open(ctx context.Context, _ pconnector.DestinationOpenReque
 	return pconnector.DestinationOpenResponse{}, err
 }
 
+// stampsOf lists the processor generation stamps a record carries.
+func stampsOf(r opencdc.Record) string {
+	var ks []string
+	for k, v := range r.Metadata {
+		if strings.HasPrefix(k, "vf.g.") {
+			ks = append(ks, strings.TrimPrefix(k, "vf.g.")+"="+v)
+		}
+	}
+	sort.Strings(ks)
+	return strings.Join(ks, ",")
+}
+
 // dlqLineage recovers the lineage of the ORIGINAL record carried by a DLQ
 // record (both engines store the failed record as structured data in
 // Payload.After; its metadata holds our stamp).
@@ -617,6 +647,9 @@ func (s *dstSession) Run(ctx context.Context, stream pconnector.DestinationRunSt
 				}
 				items[i] = item{rec: r, lin: l, ord: ord}
 				e.Recs = append(e.Recs, l)
+				if st.Role != "dlq" {
+					e.Stamps = append(e.Stamps, stampsOf(r))
+				}
 			}
 			lg.Append(e)
 			select {
@@ -835,7 +868,6 @@ func (p *Plugins) DLQ(id string) *DstState {
 		st = &DstState{ID: id, Role: "dlq", p: p, Script: p.DLQDefault}
 		p.dst[id] = st
 	}
-	st.Role = "dlq"
 	return st
 }
 
